@@ -16,6 +16,23 @@ void xv_str_register (const char *p, size_t len);
    number of characters before the NUL in *remaining and return 1.  */
 _Bool xv_str_lookup (const char *s, size_t *remaining);
 
+/* ghost log of explicit_bzero calls (see models/strings.c) and a global
+   event counter shared with contract stubs that need ordering */
+#define XV_BZERO_LOG 8
+struct xv_bzero_ev { const void *p; size_t n; unsigned seq; };
+extern struct xv_bzero_ev xv_bzero_log[XV_BZERO_LOG];
+extern unsigned xv_bzero_n;
+extern unsigned xv_event_seq;
+/* some logged call after event `after` zeroed exactly [p, p+n) */
+static inline _Bool xv_bzeroed_after (const void *p, size_t n, unsigned after)
+{
+  _Bool hit = 0;
+  for (unsigned i = 0; i < XV_BZERO_LOG; i++)
+    if (i < xv_bzero_n && xv_bzero_log[i].p == p && xv_bzero_log[i].n == n && xv_bzero_log[i].seq > after)
+      hit = 1;
+  return hit;
+}
+
 /* ghost log of decimal fields printed by the snprintf model (models/snprintf.c) */
 #define XV_DEC_LOG 4
 struct xv_dec_rec { const char *at; unsigned long long v; unsigned nd; unsigned char dig[10]; };
